@@ -28,7 +28,7 @@ DIALECTS = [("default", {}), ("semicolon", {"delimiter": ";"}), ("quote_all", {"
 NUMBERS = [
     0, -0.0, 0.0, 1, -1, 2, 10, 255, 1.5, -1.5, 0.1, 1 / 3, 2 / 3, 1e22, 1e23, 1e-7, 1.0000000000000002, 123456789.123456789,
     math.inf, -math.inf, 5e-324, -5e-324, 2.2250738585072014e-308, 2.225073858507201e-308, 1.7976931348623157e308,
-    -1.7976931348623157e308, 2**53 - 1, -(2**53 - 1), 2**53, 2**53 + 1, -(2**53 + 1), 2**63 - 1, -(2**63), 2**64, 10**30, -(10**30),
+    -1.7976931348623157e308, 2**53 - 1, -(2**53 - 1), 2**53, 2**53 + 1, -(2**53 + 1), 2**63 - 1, -(2**63), 2**64, 10**30, -(10**30), 10**400,
     10**15, 10**16, 10**17, 9007199254740993, 1e15, 1e16, 1e17, 123456789012345678, None, 3.141592653589793, 2.718281828459045,
     1e308, 1e-308, 4.9e-324, 0.30000000000000004, 100.0, 1e2, 99999999999999990000.0, 7, 7.0, -7, 1e-5, 0.00001, 1e100,
 ]
@@ -283,6 +283,12 @@ class C05(univ.UnivCheck):
         return out
 
 
+def _sign(x):
+    """Sign including that of -0.0; exact for integers too large for a float."""
+    if isinstance(x, int):
+        return 1.0 if x >= 0 else -1.0
+    return math.copysign(1, x)
+
 def same_point(got, spec):
     t, m, tags, fields = spec
     if got[0] != t or got[0].tzinfo is None or got[0].utcoffset() != dt.timedelta(0):
@@ -296,7 +302,7 @@ def same_point(got, spec):
         if v is None or g is None or isinstance(g, str):
             if g is not v:
                 return False
-        elif g != v or math.copysign(1, g) != math.copysign(1, v):
+        elif g != v or _sign(g) != _sign(v):
             return False
     return True
 
@@ -348,7 +354,7 @@ def classify(spec, got):
     cls = set()
     for k, v in fields.items():
         g = got[3][k]
-        if g != v or (isinstance(v, (int, float)) and isinstance(g, (int, float)) and math.copysign(1, g) != math.copysign(1, v)):
+        if g != v or (isinstance(v, (int, float)) and isinstance(g, (int, float)) and _sign(g) != _sign(v)):
             if isinstance(v, int) and abs(v) > 2**53:
                 cls.add("int-beyond-2^53")
             elif isinstance(v, float):
